@@ -11,6 +11,7 @@ import (
 	"github.com/llir/llvm/internal/enc"
 	"github.com/llir/llvm/ir"
 	"github.com/llir/llvm/ir/types"
+	"github.com/llir/llvm/verifhook"
 	"github.com/pkg/errors"
 )
 
@@ -39,6 +40,7 @@ func (gen *generator) createTypeDefs() error {
 	//     (without bodies).
 	gen.new.typeDefs = make(map[string]types.Type)
 	for typeName, old := range gen.old.typeDefs {
+		verifhook.Visit("createTypeDefs", typeName)
 		// track is used to identify self-referential named types.
 		track := make(map[string]bool)
 		t, err := newType(typeName, old.Typ(), gen.old.typeDefs, track)
@@ -123,6 +125,7 @@ func newType(typeName string, old ast.LlvmNode, index map[string]*ast.TypeDef, t
 func (gen *generator) translateTypeDefs() error {
 	// 2b. Translate AST type definitions to IR.
 	for typeName, old := range gen.old.typeDefs {
+		verifhook.Visit("translateTypeDefs", typeName)
 		t := gen.new.typeDefs[typeName]
 		if _, err := gen.irTypeDef(t, old.Typ()); err != nil {
 			return errors.WithStack(err)
